@@ -58,6 +58,17 @@ Definition fold_into_parent (P : cfg) (cur parent child : label) (cb : block) : 
 
 Definition has_one (c : list label) : bool := match c with [_] => true | _ => false end.
 
+(* for (n : cur.next_blocks()) rec(n) *)
+Fixpoint visit_list (rec : cfg -> vset -> label -> option (cfg * vset)) (ns : list label)
+         (st : cfg * vset) : option (cfg * vset) :=
+  match ns with
+  | [] => Some st
+  | n :: r => match rec (fst st) (snd st) n with
+              | None => None
+              | Some st' => visit_list rec r st'
+              end
+  end.
+
 Fixpoint merge_rec (fuel : nat) (P : cfg) (visited : vset) (cur : label) {struct fuel}
   : option (cfg * vset) :=
   match fuel with
@@ -69,15 +80,7 @@ Fixpoint merge_rec (fuel : nat) (P : cfg) (visited : vset) (cur : label) {struct
       match get_block P cur with
       | None => None
       | Some cb =>
-        let visit_children :=
-            (fix loop (ns : list label) (st : cfg * vset) {struct ns} : option (cfg * vset) :=
-               match ns with
-               | [] => Some st
-               | n :: r => match merge_rec f (fst st) (snd st) n with
-                           | None => None
-                           | Some st' => loop r st'
-                           end
-               end) (b_next cb) (P, visited) in
+        let visit_children := visit_list (merge_rec f) (b_next cb) (P, visited) in
         match b_next cb, b_prev cb with
         | [child], [parent] =>
           match get_block P parent with
@@ -108,8 +111,17 @@ Fixpoint closure (next : label -> list label) (fuel : nat) (S : vset) : vset :=
   | Datatypes.S n => closure next n (fold_right (fun l acc => union (next l) acc) S S)
   end.
 
-Definition alive (P : cfg) : vset := closure (succs P) (length (c_blocks P)) [c_entry P].
-Definition useful (P : cfg) (e : label) : vset := closure (preds P) (length (c_blocks P)) [e].
+(* the fuel (number of blocks) always suffices; the model validates the result (closed under
+   `next`) so that the theorems need no counting argument: should the validation fail (it never
+   does) every block counts as marked and nothing is removed *)
+Definition closedb (next : label -> list label) (S : vset) : bool :=
+  forallb (fun l => subset (next l) S) S.
+Definition marked (P : cfg) (next : label -> list label) (root : label) : vset :=
+  let S := closure next (length (c_blocks P)) [root] in
+  if closedb next S then S else root :: labels P.
+
+Definition alive (P : cfg) : vset := marked P (succs P) (c_entry P).
+Definition useful (P : cfg) (e : label) : vset := marked P (preds P) e.
 
 Definition remove_all (P : cfg) (bs : list label) : cfg := fold_left remove_block bs P.
 
